@@ -18,8 +18,12 @@
 (*                               renders, vis[f] = what template f renders  *)
 (*                               through the Tofu at that moment (the       *)
 (*                               registry in use)  = Callback /\ wreg = vis *)
-(*                               p/g, visp/visg = the parse-pass tags and   *)
-(*                               the global value those renders show        *)
+(*                               p/g/m/src (vis..) = what those registries   *)
+(*                               show: parse-pass tags, global value,       *)
+(*                               m = "ok" iff every {msg} has the id of a   *)
+(*                               fresh compile and renders its translation, *)
+(*                               src[f] = the version whose line a failing  *)
+(*                               render of file f's template reports        *)
 (*   [ev |-> "quiesce", r]       the harness found the recompiler parked in *)
 (*                               its select, fsnotify's reader parked in    *)
 (*                               epoll_wait and the inotify queue empty     *)
@@ -27,7 +31,11 @@
 (*                               between; r[f] = what template f renders    *)
 (*                               through the Tofu, p = the parse-pass tags  *)
 (*                               in that output, g = the global it prints   *)
-(*                               = Quiet /\ wreg = r /\ wregx = [p, g]      *)
+(*                               m, src as above; js[f] = the version whose *)
+(*                               JavaScript a long-lived soyjs.Generator    *)
+(*                               returns for file f                         *)
+(*                               = Quiet /\ wreg = r /\ wregx = [p,g,m,src]  *)
+(*                                 /\ GenOutput = js                        *)
 (* The steps nobody can see (WStep: the system calls themselves, Deliver,   *)
 (* DropEvent, ReAddOK, ReadStep, Compile, Swap) are chosen by TLC.  A run is         *)
 (* accepted iff SOME interleaving of hidden steps makes the recorded        *)
@@ -61,7 +69,7 @@ THidden ==
 
 AsSnap(s) == [f \in Files |-> s[f]]
 \* passes (a JSON array) and global value observed on a registry
-AsX(ps, gv) == [p |-> {ps[i] : i \in 1..Len(ps)}, g |-> gv]
+AsX(ps, gv, mv, sv) == [p |-> {ps[i] : i \in 1..Len(ps)}, g |-> gv, m |-> (mv = "ok"), src |-> AsSnap(sv)]
 
 TVisible ==
   /\ tpos >= 1 /\ tpos <= Len(Traces[tix].ev)
@@ -72,9 +80,10 @@ TVisible ==
                                     [] e.k = "fail" -> Fail
                                     [] e.k = "readdfail" -> ReAddFail)
          [] e.ev = "callback" -> /\ Callback
-                                 /\ rsnap = AsSnap(e.vers) /\ rsnapx = AsX(e.p, e.g)
-                                 /\ wreg = AsSnap(e.vis) /\ wregx = AsX(e.visp, e.visg)
-         [] e.ev = "quiesce"  -> Quiet /\ wreg = AsSnap(e.r) /\ wregx = AsX(e.p, e.g) /\ UNCHANGED vars
+                                 /\ rsnap = AsSnap(e.vers) /\ rsnapx = AsX(e.p, e.g, e.m, e.src)
+                                 /\ wreg = AsSnap(e.vis) /\ wregx = AsX(e.visp, e.visg, e.vism, e.vissrc)
+         [] e.ev = "quiesce"  -> /\ Quiet /\ wreg = AsSnap(e.r) /\ wregx = AsX(e.p, e.g, e.m, e.src)
+                                 /\ GenOutput = AsSnap(e.js) /\ UNCHANGED vars
   /\ tpos' = tpos + 1 /\ tix' = tix
   /\ Diag => PrintT(<<"AT", tix, tpos>>)
 
